@@ -169,6 +169,9 @@ func gvalOf(t *ctype, rt reflect.Type, v reflect.Value) string {
 		}
 		return "(GVArray [" + strings.Join(es, "; ") + "])"
 	case "map":
+		if rt.Kind() != reflect.Map {
+			return "(GVLeaf VNull)" // struct used as a CQL map: outside the modelled universe
+		}
 		if v.IsNil() {
 			return "GVNilMap"
 		}
@@ -294,7 +297,7 @@ func cmdReuse(n int) {
 				dest := reflect.New(r.gt)
 				dest.Elem().Set(r.mk(p))
 				rec := &reuseRec{Kind: "reuse", Id: fmt.Sprintf("r%d", id), Ver: int(ver), TypeCql: t.dt.AsCql(), TypeCoq: t.coq(), Rep: r.String(), Gty: gty,
-					Prefill: gvalOf(t, r.gt, dest.Elem()), Input: in, ValCoq: a.coq()}
+					Prefill: gvalOf(t, r.gt, dest.Elem()), Input: in, ValCoq: a.canon().coq()}
 				id++
 				var src []byte
 				switch in {
